@@ -286,10 +286,8 @@ Proof. vm_compute. split; reflexivity. Qed.
    read back (separator inferred) as the same escaped segments -- all that
    [sem_path] reads of a prepared path besides the pre-parsed search attributes,
    which are part of the segments.  From C08 (guards: C08's [wf], the property's
-   own exclusion of dot texts starting with "/").  The step from equal segments
-   to equal prepared paths (the UNESCAPED twin parse, read only by the collector
-   and creation branches) is not proved; C01_notation_example and the judge of
-   harness/c01.py (every case in both notations) stand in for it. *)
+   own exclusion of dot texts starting with "/").  The step from equal escaped
+   segments to equal RESULTS is C01_notation below. *)
 Theorem C01_notation_segments_partial :
   forall l : list sseg,
     wf Dot l = true -> wf Slash l = true -> first_not_in ["/"%char] (render_ref Dot l) = true ->
@@ -297,3 +295,74 @@ Theorem C01_notation_segments_partial :
     parse Auto true (render_ref Slash l) = Ok (segs_of l).
 Proof. exact notation_same_segments. Qed.
 Print Assumptions C01_notation_segments_partial.
+
+
+(* ======================================================================== *)
+(* NOTATION: "the answer is the same whether the path is written in dot or
+   forward-slash notation" (proofs: Proofs/EvalNotation.v).
+
+   [prepare] zips the escaped parse of the text with its UNESCAPED twin parse;
+   the two notations agree on the former (C01_notation_segments_partial) and
+   differ on the latter (a separator escaped in one notation keeps its
+   back-slash there).  The required driver reads of the unescaped segment only
+   its TYPE and, for a collector, its attributes ([dispatch]'s [fallback]); the
+   sub-paths are prepared from the escaped search attribute / the collector
+   expression.  Hence, for every styled segment list that C08's [wf] accepts in
+   both notations (every segment kind - keyword searches and collectors
+   included; the only other guard is the property's own exclusion of a dot text
+   starting with "/"), every document, every oracle, every fuel: the two texts
+   prepare alike and the required query and exists() give EQUAL streams - the
+   same results in the same order with the same coordinates and reported
+   paths, the same way of stopping. *)
+From YP Require Import EvalNotation.
+
+Theorem C01_notation :
+  forall lit re_search nstr vstr kw_handler creator (l : list sseg) (f : nat) (d : node),
+    wf Dot l = true -> wf Slash l = true -> first_not_in ["/"%char] (render_ref Dot l) = true ->
+    match prepare f (render_ref Dot l), prepare f (render_ref Slash l) with
+    | Ok pd, Ok ps =>
+        get_required lit re_search nstr vstr kw_handler creator pd d
+        = get_required lit re_search nstr vstr kw_handler creator ps d
+        /\ exists_ lit re_search nstr vstr kw_handler creator pd d
+           = exists_ lit re_search nstr vstr kw_handler creator ps d
+    | OutOfFuel, OutOfFuel => True
+    | _, _ => False
+    end.
+Proof. exact notation_same_results. Qed.
+Print Assumptions C01_notation.
+
+(* what the proof rests on: similar prepared paths give equal streams *)
+Theorem C01_similar_paths_same_answer :
+  forall lit re_search nstr vstr kw_handler creator p q d,
+    ppath_sim p q ->
+    get_required lit re_search nstr vstr kw_handler creator p d
+    = get_required lit re_search nstr vstr kw_handler creator q d.
+Proof. exact required_sim. Qed.
+Print Assumptions C01_similar_paths_same_answer.
+
+(* non-vacuity: {"a.b": {"c/d": [{x: 1}, {x: 2}]}} and the segments  a.b  c/d  [x=2]  x :
+   dot text a\.b.c/d[x=2].x, forward-slash text /a.b/c\/d[x=2]/x.  The guards hold, both texts
+   prepare, the prepared paths DIFFER (unescaped twins a\.b | a.b and c/d | c\/d), the answers are
+   equal and not empty. *)
+Definition doc_not : node :=
+  NMap (inf2 0) [(leaf2 1 (PStr "a.b"),
+    NMap (inf2 2) [(leaf2 3 (PStr "c/d"),
+      NSeq (inf2 4) [NMap (inf2 5) [(leaf2 6 (PStr "x"), leaf2 7 (PInt 1))];
+                     NMap (inf2 8) [(leaf2 6 (PStr "x"), leaf2 9 (PInt 2))]])])].
+Definition segs_not : list sseg :=
+  [((Some TKey, AStr "a.b"), plain_style); ((Some TKey, AStr "c/d"), plain_style);
+   ((Some TSearch, ASearch false MEquals "x" "2"), plain_style); ((Some TKey, AStr "x"), plain_style)].
+Definition us_of (p : ppath) : list seg := match p with PPath l => map seg_us l | PFail _ => [] end.
+
+Example C01_notation_nonvacuous :
+  wf Dot segs_not = true /\ wf Slash segs_not = true /\ first_not_in ["/"%char] (render_ref Dot segs_not) = true
+  /\ render_ref Dot segs_not = "a\.b.c/d[x=2].x" /\ render_ref Slash segs_not = "/a.b/c\/d[x=2]/x"
+  /\ match prepare 5 (render_ref Dot segs_not), prepare 5 (render_ref Slash segs_not) with
+     | Ok pd, Ok ps =>
+         map snd (us_of pd) = [AStr "a\.b"; AStr "c/d"; ASearch false MEquals "x" "2"; AStr "x"]
+         /\ map snd (us_of ps) = [AStr "a.b"; AStr "c\/d"; ASearch false MEquals "x" "2"; AStr "x"]
+         /\ oids (get_required lit2 re2 nstr2 vstr2 kw2 cr2 pd doc_not) = ([9%N], Done)
+         /\ oids (get_required lit2 re2 nstr2 vstr2 kw2 cr2 ps doc_not) = ([9%N], Done)
+     | _, _ => False
+     end.
+Proof. vm_compute. repeat split; reflexivity. Qed.
